@@ -121,12 +121,37 @@ CHECKS.update({
     ),
 })
 
+CHECKS.update({
+    "C15": dict(
+        technique="Lean 4 proof by induction on the Step tree (all built-in steps and combinators, list / Population / one-shot iterator inputs, every sound random source) and on compute_ranges for every weight vector + exhaustive weight grids and generated step trees against the implementation",
+        text="Theorems (Props/C15.lean, 14): compute_ranges returns slices that are ordered, within the target and sum to exactly the target for EVERY weight vector with positive total (ZeroDivisionError exactly when all weights are zero); every well-formed step tree asked for k individuals from an iterable of at least k yields exactly k, for lists and one-shot iterators; initialisers (standard, full, grow, PI-grow, inject + backup, half-and-half) yield exactly k and injected programs come first; every generation of a GP run of any length has the configured size; machine-checked witnesses of the three pinned defects.",
+        note="The representation is a stub in the model (draws inside a real mutate / crossover / create are not modelled); float weights other than ints / dyadics are not compared (the float expression is exact when 2*w*n < 2^53); adaptive.py / parameterless.py not modelled. Trusted: Lean kernel + standard axioms.",
+        design="5/C15",
+    ),
+    "C16": dict(
+        technique="Lean 4 proof that ElitismStep returns the first k of a stable descending sort (top-k, no excluded individual strictly better) and that a ParallelStep with an elitism slot never loses the best, over runs of any length + exhaustive small populations with ties and real GP runs",
+        text="Theorems (Props/C16.lean, 7): elitism output = take k (stable sort by maximising aggregate), length min(k, n), every excluded individual is no better than every included one, ties keep input order, minimisation handled through the aggregate; with at least one elite slot each generation is no worse than the previous one, for any run length, source and script.",
+        note="Monotonicity is proved for a top-level ParallelStep with an ElitismStep sub-step (elitism nested deeper inside a SequenceStep is covered by the correspondence runs only). Trusted: Lean kernel + standard axioms.",
+        design="5/C16",
+    ),
+    "C17": dict(
+        technique="Lean 4 proof of tournament and lexicase soundness for every population, tournament size (also beyond the population), replacement mode, target size and sound random source + exhaustive enumeration of ALL draw scripts for small populations",
+        text="Theorems (Props/C17.lean, 11): every tournament winner is a member of the population, among its drawn participants and no participant is strictly fitter; lexicase winners are members of the remaining candidates, never more copies than the population holds, survive the lexicase filter for the freshly shuffled case order and are best (or within the epsilon band) on the first case among the candidates still available; totality; machine-checked witness of the pinned lexicase defect.",
+        note="Tournament's candidate pool collapses to the previous tournament's participants (recorded as an observation, consistent with the statement). NaN fitness not modelled. Trusted: Lean kernel + standard axioms.",
+        design="5/C17",
+    ),
+})
+
+CHECKS.update({
+    "C04": dict(
+        technique="Lean 4 proof: soundness of grow / full / PI-grow creation w.r.t. the bounded language, correctness (sound, complete, fuel-adequate) of a Lean enumerator of that language, and completeness of grow creation for programs without empty lists (script construction by induction) + exhaustive comparison of the implementation's reachable SET (DFS over every outcome of every randint) with the enumerator",
+        text="Theorems (Props/C04.lean, 25): every program any depth-limited decider returns is well-typed and within the limit, i.e. in the bounded language; the enumerator is sound for every fuel, monotone in fuel, complete and its concrete fuel provably adequate (v in boundedLanguage g d iff well-typed, depth <= d, metadata erased); for every valid program without an empty list there EXISTS a script of draws making grow creation return it (C04_grow_complete_partial, C04_grow_exact_partial); with possibly-empty lists completeness provably fails (C04_grow_complete_witness: open finding shared with C05); FullDecider prefers strictly fitting recursive productions. Implementation side: for the explored family the set reachable by grow equals the language, PI-grow and full stay inside it, full = all branches at the frontier.",
+        note="Finite-choice grammars only; plain str fields excluded from exactness (wt accepts any string, creation yields ''); 'full = all branches at the limit' is decided by the set comparison, not by a theorem; tree-depth mode (e = 0) for completeness. Trusted: Lean kernel + standard axioms.",
+        design="5/C04",
+    ),
+})
+
 NOT_YET = {
-    "C04": "check built (exhaustive-script set comparison with the Lean enumerator passes; one open finding); theorems (soundness corollaries, enumerator correctness, completeness of grow) are being proved - claimed once Props/C04.lean holds them",
-    "C08": "check built (in-process set-order permutations + fresh interpreters with different PYTHONHASHSEED / padding / import order); order-independence theorems are being proved - claimed once Props/C08.lean holds them",
-    "C15": "model, theorems and correspondence are being completed by a parallel work stream (population-size invariance over the Step tree)",
-    "C16": "model, theorems and correspondence are being completed by a parallel work stream (elitism top-k / monotone best)",
-    "C17": "model, theorems and correspondence are being completed by a parallel work stream (tournament / lexicase soundness)",
 }
 
 
